@@ -8,8 +8,9 @@ from . import selast as S
 TAGS = ('a', 'p', 'div', 'span', 'input', 'form', 'button', 'select', 'option', 'textarea', 'fieldset', 'legend',
         'iframe', 'html', 'body', 'svg', 'circle', 'progress', 'optgroup', 'area', 'bdi', 'my-el', 'li', 'ul')
 # the last entries hold code points next to the boundaries a decoder may special-case (DEL/C1, surrogate block, BMP end, last code point)
-IDS = ('i1', 'i2', 'i3', 'x', '\ue000x')
-CLASSES = ('k', 'm', 'K', 'icon-\ue000', '\ud7ff\U0010ffff')
+IDS = ('i1', 'i2', 'i3', 'x', '\ue000x', 'x\t')
+# 'a ' / 'x\t': a name whose last character is white space (written as an escape, possibly at the very end of a pattern)
+CLASSES = ('k', 'm', 'K', 'icon-\ue000', '\ud7ff\U0010ffff', 'a ')
 ATTR_NAMES = ('type', 'title', 'lang', 'dir', 'href', 'class', 'id', 'name', 'data-x', 'value', 'min', 'max',
               'checked', 'disabled', 'placeholder')
 ATTR_VALUES = ('', 'a', 'abc', 'b c', 'x-y', 'text', 'radio', 'checkbox', 'submit', 'number', 'ltr', 'rtl', 'en',
